@@ -48,7 +48,7 @@ CHECKS = {
                     "same-entity slots; operator shapes). Behaviour of the compiled binding is not decided.",
             "note": TB + "; pybind11 trusted"},
     "C05": {"engine": "I", "design_ref": "DESIGN.md section 3 C05",
-            "technique": "static analysis: inventory of id-allocation sites with affine offsets and template slot positions, single-writer/allocator shape, bounded abstract execution of the two replay loops over symbolic map entries",
+            "technique": "static analysis: inventory of id-allocation sites with affine offsets and template slot positions, single-writer/allocator shape, text-reaches-output on every path, bounded abstract execution of the two replay loops over symbolic map entries",
             "text": "Decides the whole numbering protocol by an inductive argument whose premises are checked: single "
                     "writer, allocator shape, every allocated id embedded once as first gateway argument, affine "
                     "offsets (incl. the virtual pair), the two replay loops produce one case per id routed to the "
@@ -56,7 +56,7 @@ CHECKS = {
                     "user names. Correctness of the routine bodies is C06/C11.",
             "note": TB + "; abstract execution models only the statement forms the loops use (else ANALYSIS-ERROR)"},
     "C06": {"engine": "E+F", "design_ref": "DESIGN.md section 3 C06",
-            "technique": "static analysis: path enumeration of per-argument index counters, normal-form comparison of the two MATLAB type-check builders, role table (unwrap start / nargin adjustment / receiver / .m call shape), structural shape of default expansion, marshalling-table priority, enum-context provenance per role",
+            "technique": "static analysis: path enumeration of per-argument index counters, normal-form comparison of the two MATLAB type-check builders, role table (unwrap start / nargin adjustment / receiver / .m call shape), structural shape of default expansion, marshalling-table priority, enum-context provenance per role, whole-scope enum look-up, pair element selected by output position",
             "text": "Decides that position indexes advance once per argument on every path, that the two MATLAB-side guard "
                     "builders agree, that per role the C++ unwrap offsets, the expected counts and the .m call shapes are "
                     "mutually consistent, that default expansion has the peel-from-the-tail / rebuild-from-backup shape, "
@@ -96,7 +96,7 @@ CHECKS = {
                     "and names its base, and exactly one MEX source entry exists. File contents are C05/C06/C11.",
             "note": TB},
     "C11": {"engine": "E+X", "design_ref": "DESIGN.md section 3 C11",
-            "technique": "static analysis: per-routine ownership obligations on constant-folded, tokenised C++ routine templates (create=>register, destroy-once, unload hook, base handle, ownership form of returned handles) + memo-key completeness + clang AST handle protocol of matlab.h",
+            "technique": "static analysis: per-routine ownership obligations on constant-folded, tokenised C++ routine templates (create=>register, destroy-once, unload hook, base handle, ownership form of returned handles) + memo-key completeness + clang AST handle protocol of matlab.h + id-role inventory (every id carries its role; holes only as the virtual up-cast slot) + pair element by position",
             "text": "Decides per-routine ownership obligations (each allocated handle registered and returned, destructor "
                     "erases then deletes once, unload hook before first registration, base handle handed over in the "
                     "right slot, handle protocol in matlab.h read as written). Call histories under MATLAB's lifetime "
@@ -111,7 +111,7 @@ CHECKS = {
                     "byte-identical generator output (follows from equal trees + C14).",
             "note": TB},
     "C13": {"engine": "F", "design_ref": "DESIGN.md section 3 C13",
-            "technique": "static analysis: freshness/aliasing (mutate-only-fresh with reaching definitions, accumulator parameters, closures), key-only use of template parameter names, no shared module/class state",
+            "technique": "static analysis: ownership along access paths (shallow vs deep copies, re-bound attributes, local helpers, accessors and constructors followed; reaching definitions, accumulator parameters, closures), key-only use of template parameter names, no shared module/class state",
             "text": "Decides the aliasing discipline that makes instantiations independent: every in-place "
                     "modification in the instantiator hits a freshly created value; lists handed to the re-parenting "
                     "Class constructor are rebuilt; parameter names are lookup keys only; no cross-run state in "
@@ -132,7 +132,7 @@ CHECKS = {
                     "is tested before use. Equivalence with deleting the declaration for all inputs is not re-proved.",
             "note": TB},
     "C16": {"engine": "F+E", "design_ref": "DESIGN.md section 3 C16",
-            "technique": "static analysis: separator provenance of the parsed text, agreement of folded initialiser templates (declaration/definition/call/module variable), CLI option plumbing table with None-reachability, abstract interpretation of the namespace-option normalisation over spelling classes in both scripts, aliasing rule on entry-point parameters",
+            "technique": "static analysis: separator provenance of the parsed text, agreement of folded initialiser templates (declaration/definition/call/module variable), CLI option plumbing table with None-reachability, abstract interpretation of the namespace-option normalisation over spelling classes in both scripts, aliasing rule on entry-point parameters, must-pass-through (every normal exit of wrap / wrap_submodule preceded by the write of the generated text)",
             "text": "Decides that file contents are separated before parsing, that the main file and submodules agree on "
                     "initialiser name, signature and module variable, that every CLI option reaches its API keyword "
                     "and a possibly-None option never reaches a membership test, and that both scripts normalise the "
